@@ -82,9 +82,13 @@ def identity_rules(rep, ctx, mod, prefix=""):
                    (not c.callee and M.match(("load", ("field", "LHADecoderType", "read", ANY)), c.calleev, {}) is not None))}
         after_w = blocks_reachable_from(fn, list(writers)) | writers
         proper = []
+        counts = [M.strip(v_, ()) for v_, _ in dX.incoming if not is_const(v_)]
         for v_, pb_ in dX.incoming:
             if is_const(v_) and const_val(v_) == 0 and pb_ not in after_w:
                 rep.ok(rid, "early return 0 from bb%d: nothing was written to the caller's buffer before it" % pb_, None, where)
+            elif is_const(v_) and const_val(v_) == 0 and any(M.find_fact(("eq", ("inst", c_[1]), 0), F.on_edge(pb_, dX.block.id))[0] is not None for c_ in counts if c_[0] == "v"):
+                # `if (filled == 0) return 0;` in front of the updates: the count IS zero there, CRC, position and progress of zero bytes are no change
+                rep.ok(rid, "return 0 from bb%d under count == 0: the skipped updates are those of zero bytes" % pb_, None, where)
             else:
                 proper.append((v_, pb_))
         if len(proper) == 1:
